@@ -185,6 +185,7 @@ def check(run):
     for rel in (K.PY_U, K.TC_U):
         f = repo.func(rel, 'stabilizer_expect')
         rowclass.check_expect_guards(run, f)
+        rowclass.check_flag_resets(run, f)
         K.product_sites(run, f, floor=1)
         projk.check_decodes(run, f, sign_form=True)
         # the zero is final: the row loop is left (break) and the sign write is skipped (trivial flag)
